@@ -259,7 +259,7 @@ func (env *Env) c02EmbeddedRoot() {
 	}
 	e := env.engine()
 	sts := env.P.GlobalSt[g]
-	want := pat.Res("0", pat.Call("crypto/x509.ParseCertificate", pat.Field(pat.Res("0", pat.Call("encoding/pem.Decode", pat.Op(flow.OpGlobal, "verify.defaultRootCertByte"))), "Bytes")))
+	want := pat.Res("0", pat.Call("crypto/x509.ParseCertificate", pat.Field(pat.Res("0", pat.Call("encoding/pem.Decode", pat.Global("verify.defaultRootCertByte"))), "Bytes")))
 	if len(sts) == 1 && strings.HasPrefix(sts[0].Parent().Name(), "init") {
 		v := e.Eval(sts[0].Val, e.UnknownCtx(sts[0].Parent()))
 		if want(v, pat.Bind{}) {
